@@ -6,19 +6,27 @@ Open Scope N_scope.
 Section C11_statements.
 Context {D : Type}.
 
-Check (VF.Properties.C11.C11_run_never_exceeds_capacity : forall (root : tree D) input d c r,
-  run root input d (mkFmt (Some c) []) = Val r -> (length (r_out r) <= c)%nat).
-Check (VF.Properties.C11.C11_cap_fits : forall (root : tree D) input d c r_inf,
+Goal forall (root : tree D) input d c r,
+  run root input d (mkFmt (Some c) []) = Val r -> (length (r_out r) <= c)%nat.
+Proof. apply VF.Properties.C11.C11_run_never_exceeds_capacity. Qed.
+Goal forall (root : tree D) input d c r_inf,
   run root input d (mkFmt None []) = Val r_inf -> (length (r_out r_inf) <= c)%nat ->
-  run root input d (mkFmt (Some c) []) = Val r_inf).
-Check (VF.Properties.C11.C11_cap_prefix : forall (root : tree D) input d c r_c r_inf, wb_tree root ->
+  run root input d (mkFmt (Some c) []) = Val r_inf.
+Proof. apply VF.Properties.C11.C11_cap_fits. Qed.
+Goal forall (root : tree D) input d c r_c r_inf, wb_tree root ->
   run root input d (mkFmt (Some c) []) = Val r_c -> run root input d (mkFmt None []) = Val r_inf ->
-  is_prefix (r_out r_c) (r_out r_inf)).
-Check (VF.Properties.C11.C11_cap_overflow : forall (root : tree D) input d c r_c r_inf, wb_tree root ->
+  is_prefix (r_out r_c) (r_out r_inf).
+Proof. apply VF.Properties.C11.C11_cap_prefix. Qed.
+Goal forall (root : tree D) input d c r_c r_inf, wb_tree root ->
   run root input d (mkFmt (Some c) []) = Val r_c -> run root input d (mkFmt None []) = Val r_inf ->
-  r_err r_inf = None -> (c < length (r_out r_inf))%nat -> r_err r_c = Some (std_error OutOfMemory)).
-Check (VF.Properties.C11.C11_push_fits : forall f c f', fits f -> push f c = Ok f' -> fits f').
-Check (VF.Properties.C11.C11_push_error_is_225 : forall f c e, push f c = Err e -> e = OutOfMemory).
-Check (VF.Properties.C11.C11_push_appends : forall f c f', push f c = Ok f' -> buf f' = buf f ++ c /\ cap f' = cap f).
-Check (VF.Properties.C11.C11_run_total : forall (root : tree D) input d f, exists r, run root input d f = Val r).
+  r_err r_inf = None -> (c < length (r_out r_inf))%nat -> r_err r_c = Some (std_error OutOfMemory).
+Proof. apply VF.Properties.C11.C11_cap_overflow. Qed.
+Goal forall f c f', fits f -> push f c = Ok f' -> fits f'.
+Proof. apply VF.Properties.C11.C11_push_fits. Qed.
+Goal forall f c e, push f c = Err e -> e = OutOfMemory.
+Proof. apply VF.Properties.C11.C11_push_error_is_225. Qed.
+Goal forall f c f', push f c = Ok f' -> buf f' = buf f ++ c /\ cap f' = cap f.
+Proof. apply VF.Properties.C11.C11_push_appends. Qed.
+Goal forall (root : tree D) input d f, exists r, run root input d f = Val r.
+Proof. apply VF.Properties.C11.C11_run_total. Qed.
 End C11_statements.
